@@ -274,6 +274,9 @@ impl AggregateExecutionEngine {
 
         let having_aggregates = extract_having_aggregates(aggregate_statement)?;
 
+        // Each result table is deduplicated on its own: rows shown in an earlier table must not vanish from this one
+        self.distinct_values = DistinctValues::new();
+
         for row_index in 0..num_rows {
             let mut result_columns = Vec::new();
             for column_index in 0..num_columns {
